@@ -52,8 +52,15 @@ func verifC31Value(n int) {
 	x := sym.U64("x")
 	before := sym.Overflows()
 	y := f(x)
-	sym.Assert(sym.Overflows() == before, "no intermediate product or sum overflows 64 bits")
+	wrapped := sym.Overflows() != before
 	sym.Observe("y", y)
+	// the value clauses first: a wrap-around that spoils the result is then reported with inputs that reproduce
+	// natively; a wrap-around without visible effect is reported by the last assertion (engine-only observable)
+	verifC31Clauses(dots, n, x, y)
+	sym.Assert(!wrapped, "no intermediate product or sum overflows 64 bits")
+}
+
+func verifC31Clauses(dots []Dot, n int, x, y uint64) {
 	if x < dots[0].X {
 		sym.Assert(y == dots[0].Y, "before the first dot: its Y")
 		sym.Reach("before")
